@@ -75,7 +75,18 @@ func (y *yielder) yield(site uint16) {
 	if y == nil {
 		return
 	}
-	y.w.yield(site)
+	w := y.w
+	// The goroutine that must park is the one that is running. Normally that is the owner of
+	// this seam object; if the code under test hands one caller's writer or context to another
+	// goroutine (a shared buffer, say) the event is the running worker's, not the owner's.
+	if g := goid(); g != w.goid {
+		if o := w.sim.byGoid[g]; o != nil {
+			w = o
+		} else {
+			return // not a worker of this run (a helper goroutine of the code under test)
+		}
+	}
+	w.yield(site)
 }
 
 // ---- parser.Context seam: every method is a yield point --------------------------------
